@@ -217,7 +217,11 @@ func (x *ctxInfo) verdict(out clientx.Outcome, f string, p int, first string) {
 			x.r.Violate(c, "reads-after-cancel", a, fmt.Sprintf("%s: context cancelled on entering read %d, client issued %d reads in total", ctx, k, reads))
 		}
 	case "eof":
-		// any error will do
+		// a stream closed in the middle of a reply leaves bytes for the parser to refuse: any error will do. A stream
+		// closed before the first reply byte is a transport failure and nothing else
+		if p == 0 && !isCE {
+			x.r.Violate(c, "wrong-error-class", a, fmt.Sprintf("%s: the peer closed the stream before sending anything; want the retryable *ClientError, got %T: %v", ctx, out.Err, out.Err))
+		}
 	}
 	key := mon.Mix(uint64(x.client), uint64(c.FC), uint64(L), uint64(p), mon.HashS(f), mon.HashS(first))
 	x.r.Distinct(key)
